@@ -20,6 +20,7 @@ import (
 	"encoding/json"
 	"fmt"
 	"sort"
+	"time"
 
 	"github.com/ontio/ontology-crypto/keypair"
 	"github.com/ontio/ontology/common"
@@ -290,7 +291,7 @@ func (w *world) genHeader(chain uint64, height uint32, peers []int) (hdrSpec, st
 		return c.Intn(nKeys)
 	}
 	kind := []string{"honest-all", "honest-min", "honest-sig-order", "too-few", "dup-one", "dup-some", "non-peer",
-		"missing-sig", "bad-sig", "dup-sig", "extra-sigs", "garbage-first", "foreign-sig", "random", "honest-min", "dup-one"}[c.Intn(16)]
+		"missing-sig", "bad-sig", "dup-sig", "extra-sigs", "garbage-first", "foreign-sig", "random", "honest-min", "dup-one", "extra-sigs-bad"}[c.Intn(17)]
 	switch kind {
 	case "honest-all":
 		sp.Bks = pick(len(kp))
@@ -354,6 +355,13 @@ func (w *world) genHeader(chain uint64, height uint32, peers []int) (hdrSpec, st
 	case "extra-sigs":
 		sp.Bks = pick(need + c.Intn(2))
 		sp.Sigs = append(okSigs(sp.Bks), sigSpec{Kind: []string{"garbage", "ok", "corrupt"}[c.Intn(3)], Key: c.Intn(nKeys)})
+	case "extra-sigs-bad": // more signatures than bookkeepers, one of the counted ones not valid
+		sp.Bks = pick(need + c.Intn(2))
+		sp.Sigs = okSigs(sp.Bks)
+		if len(sp.Sigs) > 0 {
+			sp.Sigs[c.Intn(len(sp.Sigs))].Kind = []string{"other", "corrupt"}[c.Intn(2)]
+		}
+		sp.Sigs = append(sp.Sigs, sigSpec{Kind: "ok", Key: c.Intn(nKeys)}, sigSpec{Kind: "ok", Key: c.Intn(nKeys)})
 	case "garbage-first":
 		sp.Bks = pick(need + c.Intn(2))
 		sp.Sigs = append([]sigSpec{{Kind: "garbage", Key: c.Intn(4)}}, okSigs(sp.Bks)...)
@@ -442,18 +450,25 @@ func Run(c *hx.Ctx) {
 			runReplay(c, pool, r)
 		}
 	}
+	t0 := time.Now()
+	lap := func(n string) { c.Note(fmt.Sprintf("stage %s: %.1fs", n, time.Since(t0).Seconds())); t0 = time.Now() }
 	f12(c, pool)
+	lap("f12")
 	boundary(c, pool)
+	lap("boundary")
 	nScen := c.N(70, 600)
 	for i := 0; i < nScen; i++ {
 		scenario(c, pool)
 	}
+	lap("scenarios")
 	nHist := c.N(60, 500)
 	for i := 0; i < nHist; i++ {
 		history(c, pool)
 	}
+	lap("histories")
 	nMulti := c.N(300, 3000)
 	for i := 0; i < nMulti; i++ {
 		multi(c, pool)
 	}
+	lap("multi")
 }
